@@ -231,6 +231,10 @@ func (o Ops) Mul(a, b *Int) *Int {
 
 // Quo is unsigned division (signed operands are handled only when known non-negative).
 func (o Ops) Quo(a, b *Int, signed bool) *Int {
+	// unsigned division by a power of two is a shift
+	if c, ok := b.IsConst(); ok && c != 0 && c&(c-1) == 0 && (!signed || a.Hi <= mask(a.W)>>1) {
+		return o.Shr(a, NewConst(a.W, uint64(bits.TrailingZeros64(c)), false), false)
+	}
 	w := a.W
 	m := mask(w)
 	lo, hi := uint64(0), m
@@ -248,6 +252,12 @@ func (o Ops) Quo(a, b *Int, signed bool) *Int {
 }
 
 func (o Ops) Rem(a, b *Int, signed bool) *Int {
+	// unsigned remainder by a power of two is a mask
+	if c, ok := b.IsConst(); ok && c != 0 && c&(c-1) == 0 && (!signed || a.Hi <= mask(a.W)>>1) {
+		r := o.And(a, NewConst(a.W, c-1, a.Signed))
+		r.Signed = a.Signed
+		return r
+	}
 	w := a.W
 	m := mask(w)
 	hi := m
